@@ -22,8 +22,13 @@ def run(case):
     T, N, _ = path.shape
     M = np.array(case['lattice']['matrix'], float)
     form = case.get('form', 'wrapped')
-    coords = path - np.floor(path) if form == 'wrapped' else path
-    t = cases.trajectory(coords, case['symbols'], M, case['time_step'], case['temperature'], case['species_kind'])
+    if form == 'displacements':
+        # the constructor's documented alternative input: per-frame displacements plus base positions
+        steps = np.concatenate([np.zeros_like(path[:1]), np.diff(path, axis=0)], axis=0)
+        t = cases.trajectory(steps, case['symbols'], M, case['time_step'], case['temperature'], case['species_kind'], coords_are_displacement=True, base_positions=path[0] - np.floor(path[0]))
+    else:
+        coords = path - np.floor(path) if form == 'wrapped' else path
+        t = cases.trajectory(coords, case['symbols'], M, case['time_step'], case['temperature'], case['species_kind'])
     if case.get('touch_first'):
         gcall(lambda: t.displacements)  # start from the displacement representation
     # read-only queries issued before the quantities are compared (call-order dependence)
@@ -75,7 +80,7 @@ def run(case):
     crossings = int(np.sum(np.floor(path[1:]) != np.floor(path[:-1])))
     fam, ori = case['lattice']['family'], case['lattice']['orient']
     skew = fam in ('hexagonal', 'rhombohedral', 'monoclinic', 'triclinic') or ori == 'rot'
-    labels = [fam, 'orient-' + ori, f'atoms>=2' if N >= 2 else 'atoms=1']
+    labels = [fam, 'orient-' + ori, f'atoms>=2' if N >= 2 else 'atoms=1', 'form-' + form]
     if crossings:
         labels.append('face-crossing')
     if crossings > 3 * N:
@@ -92,7 +97,7 @@ def msd_cases(draw, tier):
     T, N, _ = path.shape
     drift = np.array(draw(st.lists(st.sampled_from([0.0, 0.0, 0.05, -0.11, 0.2, -0.24]), min_size=3 * N, max_size=3 * N))).reshape(1, N, 3)
     c['path'] = (path + drift * np.arange(T).reshape(T, 1, 1)).tolist()
-    c['form'] = draw(st.sampled_from(['wrapped', 'wrapped', 'unwrapped']))
+    c['form'] = draw(st.sampled_from(['wrapped', 'wrapped', 'unwrapped', 'displacements']))
     c['touch_first'] = draw(st.booleans())
     c['prelude'] = draw(st.lists(st.sampled_from(['positions', 'displacements', 'cumulative', 'center_of_mass', 'haven', 'com_diffusivity', 'msd', 'distances', 'filter', 'drift']), max_size=4))
     return c
